@@ -421,7 +421,7 @@ DwTerm ==
 \* tree.deleteNode(pid): whatever is registered under that id goes, with its subtree.
 \* Repaired design: only the very incarnation the Terminated message is about, and only while it is not running.
 DwDelete ==
-  /\ dwpc = "del" /\ last' = <<"DwDelete">>
+  /\ dwpc = "del" /\ sysst # "dead" /\ last' = <<"DwDelete">>
   /\ LET id == dwm[1][1]
          stale == node[id].reg /\ (\E x \in Sub(node, {id}) : RunFlag(node[x].pid)) IN
      /\ node' = IF Has("StaleTerminated") \/ (node[id].reg /\ node[id].pid = dwm[1] /\ pre[dwm[1]] = dwm[2] /\ ~Run(dwm[1])) THEN DeleteT(node, id) ELSE node
@@ -467,7 +467,7 @@ OpCall(t) ==
                     /\ Goto(t, "stopper")
                ELSE Goto(t, "rs_wait") /\ UNCHANGED <<spc, sp>>
             /\ UNCHANGED <<treev, pst, pre, psn, ninc, dwv, slist, sbr, bpar, fl, sysst, histv>>
-       [] o.op = "tell" ->                       \* a user message to <<n,1>>: accepted, dead-lettered or refused
+       [] o.op \in {"tell", "tellg"} ->          \* a user message to <<n,1>> / to a grain: accepted, dead-lettered or refused
             /\ Done(t) /\ UNCHANGED <<treev, lifev, dwv, tl, stv, fl, sysst, histv>>
        [] o.op = "sysstop" ->                    \* ActorSystem.Stop: shuttingDown := true ... userGuardian.Shutdown
             /\ sysst' = "stopping"
